@@ -1,20 +1,20 @@
 #!/bin/bash
-# Re-run every seeded change against the check of its property (and report which still apply to /repo HEAD).
-# usage: ./tools_seed_sweep.sh [ids...]   — /repo must be clean; it is restored after every seed.
+# Re-run every seeded change against the check of its property, each on private copies of /repo and /verif
+# (tools_iso_check.sh), N at a time.  usage: ./tools_seed_sweep.sh [-j N] [ids...]
 cd /verif
-out=seeded/SWEEP.txt
-: > $out.tmp
-ids="$@"; [ -z "$ids" ] && ids=$(ls seeded | grep -v SWEEP)
-if [ -n "$(git -C /repo status --porcelain)" ]; then echo "/repo is not clean"; exit 2; fi
+J=3; if [ "$1" = "-j" ]; then J=$2; shift 2; fi
+ids="$@"; [ -z "$ids" ] && ids=$(ls seeded | grep -v "SWEEP\|harmless")
+raw=.work/sweep_raw.txt; : > $raw
+for s in $ids; do echo $s; done | xargs -P $J -I{} sh -c 'p=$(echo {} | cut -c1-3); ./tools_iso_check.sh seeded/{}/patch.diff '$raw' $p'
+{
+echo "# seeded-change sweep against /repo $(git -C /repo rev-parse --short HEAD), /verif $(git rev-parse --short HEAD), $(date -u +%FT%TZ)"
 for s in $ids; do
-  p=${s:0:3}
-  if ! git -C /repo apply --check seeded/$s/patch.diff 2>/dev/null; then
-    echo "$s: patch does not apply to /repo HEAD $(git -C /repo rev-parse --short HEAD) (see seeded/$s/meta.json)" >> $out.tmp; continue
-  fi
-  git -C /repo apply seeded/$s/patch.diff
-  res=$(timeout 2400 ./check $p 2>&1 | grep "^VIOLATION" | head -3 | sed 's/^VIOLATION //' | tr '\n' ';')
-  git -C /repo checkout -- . ; git -C /repo clean -fdq
-  if [ -n "$res" ]; then echo "$s: CAUGHT by ./check $p: $res" >> $out.tmp; else echo "$s: NOT CAUGHT by ./check $p" >> $out.tmp; fi
+  l=$(grep "^$s/patch.diff \|DOES-NOT-APPLY $s/" $raw | head -1)
+  case "$l" in
+    *DOES-NOT-APPLY*) echo "$s: patch no longer applies to /repo HEAD (see seeded/$s/meta.json)";;
+    *VIOLATION*) echo "$s: CAUGHT  — ${l#* }";;
+    *) echo "$s: NOT CAUGHT — $l";;
+  esac
 done
-mv $out.tmp $out
-cat $out
+} > seeded/SWEEP.txt
+cat seeded/SWEEP.txt
